@@ -141,6 +141,21 @@ def main(argv=None):
     t_start = time.time()
 
     if args.replay:
+        try:
+            kind = json.load(open(args.replay)).get("kind")
+        except Exception:
+            kind = None
+        if kind == "standin":
+            key = json.load(open(args.replay))["standin"]
+            env = dict(os.environ)
+            env["PYTHONPATH"] = VERIF
+            p = subprocess.run([NATIVE_PY, "-m", "pyvc.run_standin", key, "--repo", repo], capture_output=True, text=True, env=env, cwd=VERIF)
+            print(p.stdout.strip())
+            r = json.loads(p.stdout.strip().splitlines()[-1])
+            if r.get("failures"):
+                print("VIOLATION property=%s replay=%s" % (args.prop, args.replay))
+                return 1
+            return 0
         r = native_replay(os.path.abspath(args.replay), repo)
         print(json.dumps(r, indent=1))
         if r.get("reproduced"):
@@ -289,6 +304,29 @@ def main(argv=None):
         else:
             undecided.append("%s: counter-model does not reproduce natively (abstraction artefact?)" % name)
 
+    # ---------------------------------------------------------------- bounded native stand-ins (never counted as proved)
+    standin_results = []
+    for key in entry.get("standins", []):
+        env = dict(os.environ)
+        env["PYTHONPATH"] = VERIF
+        env["PYTHONDONTWRITEBYTECODE"] = "1"
+        try:
+            p = subprocess.run([NATIVE_PY, "-m", "pyvc.run_standin", key, "--repo", repo], capture_output=True, text=True,
+                               timeout=600, env=env, cwd=VERIF)
+            r = json.loads(p.stdout.strip().splitlines()[-1])
+        except Exception as e:  # noqa
+            r = {"name": key, "ok": False, "error": repr(e), "failures": [], "evaluations": 0}
+        standin_results.append(r)
+        if r.get("error"):
+            faults.append("stand-in %s crashed: %s" % (key, str(r["error"]).strip().splitlines()[-1]))
+        elif r.get("failures"):
+            rp = os.path.join(replay_dir, "standin." + key.split(":")[-1] + ".json")
+            with open(rp, "w") as f:
+                json.dump({"property": args.prop, "obligation": "standin:" + key, "kind": "standin", "standin": key,
+                           "failing_inputs": r["failures"], "bound": r.get("bound")}, f, indent=1, default=str)
+            violations.append("standin:" + key)
+            vio_lines.append("VIOLATION property=%s replay=%s" % (args.prop, os.path.relpath(rp, VERIF)))
+
     # ---------------------------------------------------------------- known findings: witnesses
     for f in kf:
         w = f.get("witness")
@@ -327,6 +365,8 @@ def main(argv=None):
             "undecided": undecided, "faults": faults, "violated_obligations": violations,
             "known_findings": [f.get("id") for f in kf],
             "bounded_standins": entry.get("bounded_standins", []),
+            "bounded_standin_runs": [{"name": r.get("name"), "bound": r.get("bound"), "evaluations": r.get("evaluations"),
+                                      "failures": len(r.get("failures") or [])} for r in standin_results],
             "not_decided_clauses": entry.get("not_decided", []),
             "status": status, "repo_head": head, "repo_dirty": dirty,
             "explanation": entry.get("explanation", ""),
